@@ -11,9 +11,12 @@ CONFIGS = {
     "MB": dict(Keys={1, 2}, Nodes={1, 2}, F=2, Times={0, 1, 2, 3}, Replicas={1, 2}, MaxOps=3, MaxMerges=1, Mode='"prefix"'),
     "MC": dict(Keys={1, 2}, Nodes={1, 2}, F=3, Times={0, 1, 2}, Replicas={1, 2}, MaxOps=3, MaxMerges=1, Mode='"window"'),
     "MF": dict(Keys={1, 2}, Nodes={1, 2}, F=2, Times={0, 1, 2, 3}, Replicas={1, 2, 3}, MaxOps=3, MaxMerges=0, Mode='"prefix"'),
+    # one key, three replicas, three operations: the smallest universe in which merge ORDER matters
+    "MK3": dict(Keys={1}, Nodes={1, 2}, F=2, Times={0, 1, 2}, Replicas={1, 2, 3}, MaxOps=3, MaxMerges=0, Mode='"prefix"'),
+    "MK4": dict(Keys={1}, Nodes={1, 2}, F=3, Times={0, 1, 2}, Replicas={1, 2, 3}, MaxOps=3, MaxMerges=0, Mode='"window"'),
     "MG": dict(Keys={1, 2}, Nodes={1, 2}, F=2, Times={0, 3, 4}, Replicas={1, 2}, MaxOps=3, MaxMerges=2, Mode='"prefix"'),
 }
-TIERS = {"quick": ["MA", "ME", "MW"], "thorough": ["MA", "ME", "MW", "MB", "MC", "MF", "MG"]}
+TIERS = {"quick": ["MA", "ME", "MW", "MK3", "MK4"], "thorough": ["MA", "ME", "MW", "MK3", "MK4", "MB", "MC", "MF", "MG"]}
 INVARIANTS = ["C03_Commutative", "C03_Idempotent", "C03_Associative", "C03_MutualMerge",
               "C05_DiffExact", "C05_OneExchange", "C05_MutualRepair", "WellFormedInv"]
 
